@@ -83,4 +83,207 @@ theorem readIdent_canonical (bs : Bytes) (id : Ident) (k : Nat) (h : readIdent b
                     rw [e1, e2, e3, ofNat_toNat, ofNat_toNat, ofNat_toNat]
                   · simp at h
 
+/-- **1(b).** In DER (and CER) the reference length reader accepts a definite length only in its
+    shortest form: the octets consumed are `lenOctets` of the length read. -/
+theorem readLen_canonical (bs : Bytes) (n k : Nat) (h : readLen false bs = some (some n, k)) :
+    bs.take k = lenOctets n := by
+  cases bs with
+  | nil => simp [readLen] at h
+  | cons b rest =>
+    simp only [readLen] at h
+    split at h
+    · rename_i h0
+      simp at h; obtain ⟨h1, h2⟩ := h; subst h1; subst h2
+      rw [C13.lenOctets_1 _ h0, ofNat_toNat]; rfl
+    · split at h
+      · simp at h
+      · split at h
+        · simp at h
+        · split at h
+          · simp at h
+          · simp only [Bool.false_eq_true, if_false] at h
+            split at h
+            · rename_i hmin
+              simp at h; obtain ⟨h1, h2⟩ := h; subst h1; subst h2
+              rw [hmin, Nat.add_comm, List.take_succ_cons]
+            · simp at h
+
+/-- the indefinite form is the single octet 0x80 (it is read as such by the length reader in every mode and
+    rejected afterwards by the DER rule of the value grammar, see `der_no_indefinite`) -/
+theorem readLen_indefinite (ber : Bool) (bs : Bytes) (k : Nat) (h : readLen ber bs = some (none, k)) :
+    k = 1 ∧ bs.take 1 = [0x80] := by
+  cases bs with
+  | nil => simp [readLen] at h
+  | cons b rest =>
+    simp only [readLen] at h
+    split at h
+    · simp at h
+    · split at h
+      · rename_i h1
+        simp at h
+        refine ⟨h.symm, ?_⟩
+        simp only [List.take_succ_cons, List.take_zero]
+        rw [byte_of_toNat b 128 h1]; rfl
+      · split at h
+        · simp at h
+        · split at h
+          · simp at h
+          · split at h
+            · simp at h
+            · split at h <;> simp at h
+
+/-- the header of a value accepted in DER mode consists of exactly the canonical octets -/
+theorem header_canonical (bs : Bytes) (id : Ident) (k n kl : Nat) (h1 : readIdent bs = some (id, k))
+    (h2 : readLen false (bs.drop k) = some (some n, kl)) :
+    bs = hdrOctets id.cls id.constructed id.num n ++ bs.drop (k + kl) := by
+  have e1 := readIdent_canonical bs id k h1
+  have e2 := readLen_canonical _ n kl h2
+  unfold hdrOctets
+  rw [← e1, ← e2, ← List.drop_drop, List.append_assoc, List.take_append_drop, List.take_append_drop]
+
+/-! ## 2. structure canonicity on the grammar -/
+
+mutual
+/-- the canonical (DER) octets of a tree: minimal identifier octets, minimal definite length, content -/
+def treeBytes : Tree → Bytes
+  | .prim id c => hdrOctets id.cls id.constructed id.num c.length ++ c
+  | .cons id _ kids => hdrOctets id.cls id.constructed id.num (treesBytes kids).length ++ treesBytes kids
+/-- the canonical octets of a sequence of trees -/
+def treesBytes : List Tree → Bytes
+  | [] => []
+  | t :: ts => treeBytes t ++ treesBytes ts
+end
+
+theorem treesBytes_nil : treesBytes [] = [] := by rw [treesBytes]
+theorem treesBytes_cons (t : Tree) (ts : List Tree) : treesBytes (t :: ts) = treeBytes t ++ treesBytes ts := by
+  rw [treesBytes]
+theorem treeBytes_prim (id : Ident) (c : Bytes) :
+    treeBytes (.prim id c) = hdrOctets id.cls id.constructed id.num c.length ++ c := by rw [treeBytes]
+theorem treeBytes_cons (id : Ident) (b : Bool) (kids : List Tree) :
+    treeBytes (.cons id b kids) =
+      hdrOctets id.cls id.constructed id.num (treesBytes kids).length ++ treesBytes kids := by rw [treeBytes]
+
+/-- in DER the indefinite form is never accepted (so `parseUntilEoc` is never reached) -/
+theorem der_no_indefinite (f : Nat) (bs : Bytes) (id : Ident) (k kl : Nat)
+    (h1 : readIdent bs = some (id, k)) (h2 : readLen false (bs.drop k) = some (none, kl)) :
+    parseValue .der (f + 1) bs = none := by
+  simp only [parseValue, h1, M.isBer, h2]
+  split <;> simp
+
+/-- **2. DER parsing is canonical** (both levels, by induction on the fuel): whatever the grammar
+    accepts in DER mode is the canonical encoding of the tree(s) it returns. -/
+theorem der_parse_canonical : ∀ f : Nat,
+    (∀ bs t rest, parseValue .der f bs = some (t, rest) → bs = treeBytes t ++ rest) ∧
+    (∀ bs ts, parseAll .der f bs = some ts → bs = treesBytes ts) := by
+  intro f
+  induction f with
+  | zero => exact ⟨fun bs t rest h => by simp [parseValue] at h, fun bs ts h => by simp [parseAll] at h⟩
+  | succ f ih =>
+    obtain ⟨ihV, ihA⟩ := ih
+    constructor
+    · intro bs t rest h
+      simp only [parseValue] at h
+      cases hr : readIdent bs with
+      | none => simp [hr] at h
+      | some r =>
+        obtain ⟨id, k⟩ := r
+        simp only [hr] at h
+        split at h
+        · simp at h
+        · cases hl : readLen M.der.isBer (bs.drop k) with
+          | none => simp [hl] at h
+          | some r2 =>
+            obtain ⟨len?, kl⟩ := r2
+            simp only [hl] at h
+            cases len? with
+            | none =>
+              simp only at h
+              split at h
+              · simp at h
+              · rename_i hx; simp at hx
+            | some n =>
+              have hhdr := header_canonical bs id k n kl hr hl
+              simp only at h
+              split at h
+              · simp at h
+              · rename_i hn
+                have hlen : (List.take n (List.drop (k + kl) bs)).length = n := by
+                  rw [List.length_take]; omega
+                split at h
+                · simp only [Option.some.injEq, Prod.mk.injEq] at h
+                  obtain ⟨ht, hrest⟩ := h
+                  subst ht; subst hrest
+                  rw [treeBytes_prim, hlen, List.append_assoc, List.take_append_drop]
+                  exact hhdr
+                · split at h
+                  · simp at h
+                  · cases hp : parseAll .der f (List.take n (List.drop (k + kl) bs)) with
+                    | none => simp [hp] at h
+                    | some kids =>
+                      simp only [hp, Option.some.injEq, Prod.mk.injEq] at h
+                      obtain ⟨ht, hrest⟩ := h
+                      subst ht; subst hrest
+                      have hk := ihA _ _ hp
+                      rw [treeBytes_cons, ← hk, hlen, List.append_assoc, List.take_append_drop]
+                      exact hhdr
+    · intro bs ts h
+      simp only [parseAll] at h
+      split at h
+      · rename_i he
+        simp at h; subst h
+        rw [treesBytes_nil]
+        simpa using he
+      · cases hv : parseValue .der f bs with
+        | none => simp [hv] at h
+        | some r =>
+          obtain ⟨t, rest⟩ := r
+          simp only [hv] at h
+          cases hq : parseAll .der f rest with
+          | none => simp [hq] at h
+          | some ts' =>
+            simp only [hq, Option.map, Option.some.injEq] at h
+            subst h
+            rw [treesBytes_cons, ← ihA _ _ hq]
+            exact ihV _ _ _ hv
+
+/-- a single value: the octets of the value are the canonical octets of its tree -/
+theorem parseValue_canonical (f : Nat) (bs : Bytes) (t : Tree) (rest : Bytes)
+    (h : parseValue .der f bs = some (t, rest)) : bs = treeBytes t ++ rest :=
+  (der_parse_canonical f).1 bs t rest h
+
+/-- a sequence of values filling the input: the input is the canonical encoding of the trees -/
+theorem parseAll_canonical (f : Nat) (bs : Bytes) (ts : List Tree)
+    (h : parseAll .der f bs = some ts) : bs = treesBytes ts :=
+  (der_parse_canonical f).2 bs ts h
+
+/-- **two different octet strings never decode in DER mode to equal values** (trees: tags, nesting,
+    primitive contents), whatever fuel either parse used -/
+theorem der_injective (f f' : Nat) (a b : Bytes) (ts : List Tree)
+    (ha : parseAll .der f a = some ts) (hb : parseAll .der f' b = some ts) : a = b := by
+  rw [parseAll_canonical f a ts ha, parseAll_canonical f' b ts hb]
+
+/-- the same for one value at the front of two inputs: the octets consumed are the same -/
+theorem der_value_injective (f f' : Nat) (a b : Bytes) (t : Tree) (ra rb : Bytes)
+    (ha : parseValue .der f a = some (t, ra)) (hb : parseValue .der f' b = some (t, rb)) :
+    ∃ v, a = v ++ ra ∧ b = v ++ rb :=
+  ⟨treeBytes t, parseValue_canonical f a t ra ha, parseValue_canonical f' b t rb hb⟩
+
+/-- through C02: whatever the generic reader (the model of `Mode::Der.decode` over
+    `Constructed::take_opt_value`) accepts is the canonical encoding of what it returned -/
+theorem decode_der_canonical (f : Nat) (d : Bytes) (ts : List Tree) (g' : G0)
+    (h : runG0 (decodeAll .der f) (St d none) = .ok (ts, g')) : d = treesBytes ts ∧ g' = St [] none := by
+  obtain ⟨hg, hp⟩ := accepts_consumes .der f d ts g' h
+  exact ⟨parseAll_canonical f d ts hp, hg⟩
+
+/-- … hence the reader is injective on accepted inputs -/
+theorem decode_der_injective (f f' : Nat) (a b : Bytes) (ts : List Tree) (ga gb : G0)
+    (ha : runG0 (decodeAll .der f) (St a none) = .ok (ts, ga))
+    (hb : runG0 (decodeAll .der f') (St b none) = .ok (ts, gb)) : a = b := by
+  rw [(decode_der_canonical f a ts ga ha).1, (decode_der_canonical f' b ts gb hb).1]
+
+/-- the same on the contract-checking layer `runG` -/
+theorem decode_der_canonical_runG (f : Nat) (d : Bytes) (ts : List Tree) (g' : G)
+    (h : runG (decodeAll .der f) { data := d, limit := none } = .ok (ts, g')) : d = treesBytes ts :=
+  parseAll_canonical f d ts (accepts_runG .der f d ts g' h).1
+
 end Bcder.Props.C05
